@@ -23,6 +23,38 @@ class Hang(BaseException):
     pass
 
 
+# Python knows every codec under several names; the library hands the name it is given to str.encode / bytes.decode, so
+# any spelling of the same codec must behave alike.  For property modules that opt in (CODEC_ALIASES = True) the
+# implementation run of one case in three gets an alias spelling (chosen from the case's content, so a replay repeats it);
+# the model and the judge keep the canonical name.
+CODEC_NAMES = {'latin_1': ['latin-1', 'iso-8859-1', 'L1', 'ISO8859-1', 'latin1', 'LATIN_1'], 'ascii': ['us-ascii', 'ASCII', '646'],
+               'cp1252': ['windows-1252', 'CP1252'], 'cp437': ['IBM437', '437'], 'iso8859_15': ['iso-8859-15', 'L9'],
+               'cp037': ['IBM037', 'ebcdic-cp-us', 'CP037'], 'cp500': ['IBM500', 'ebcdic-cp-be', 'CP500'],
+               'cp1140': ['ibm1140', 'CP1140'], 'cp273': ['IBM273', '273'], 'cp1026': ['ibm1026', 'CP1026'], 'cp875': ['CP875'],
+               'cp424': ['IBM424', 'ebcdic-cp-he']}
+
+
+def for_impl(mod, c):
+    if not getattr(mod, 'CODEC_ALIASES', False) or not isinstance(c, dict):
+        return c
+    import zlib
+    h = zlib.crc32(json.dumps(c, sort_keys=True).encode())
+    if h % 3:
+        return c
+
+    def al(name, k):
+        v = CODEC_NAMES.get(name)
+        return v[((h >> 4) + k) % len(v)] if v else name
+    c2 = dict(c)
+    if isinstance(c2.get('codec'), str):
+        c2['codec'] = al(c2['codec'], 0)
+    for key in ('warm', 'insts'):
+        if isinstance(c2.get(key), list):
+            c2[key] = [dict(w, codec=al(w['codec'], i + 1)) if isinstance(w, dict) and isinstance(w.get('codec'), str) else w
+                       for i, w in enumerate(c2[key])]
+    return c2
+
+
 def on_alarm(signum, frame):
     raise Hang()
 
@@ -70,7 +102,7 @@ def thread_pass(mod, cases, seq, timeout):
     try:
         def one(i):
             try:
-                return i, mod.impl(copy.deepcopy(cases[i]))
+                return i, mod.impl(copy.deepcopy(for_impl(mod, cases[i])))
             except BaseException as ex:
                 return i, {'out': 'HARNESS', 'err': '%s: %s' % (type(ex).__name__, ex)}
         with concurrent.futures.ThreadPoolExecutor(max_workers=4) as ex:
@@ -97,7 +129,7 @@ def main():
         for c in cases:
             signal.setitimer(signal.ITIMER_REAL, timeout)
             try:
-                r = mod.impl(c)
+                r = mod.impl(for_impl(mod, c))
             except Hang:
                 r = {'out': 'HANG'}
             except BaseException as ex:  # harness error, not an outcome of the code under test
